@@ -135,6 +135,50 @@ func runC04(c *Ctx) {
 
 	c.rule("C04.V1", "a lighter branch from any peer cannot displace the honest chain: "+knownWorkDoc, func() { c.knownWorkLoop() })
 
+	c.rule("C04.O4", "a peer that was retired from a broadcast query is not consulted again: in queryAllPeers the response callback runs only on the default arm of a non-blocking receive from that peer's own quit channel (peerQuits[sp.Addr()]), and is handed that same channel: the callbacks close it to retire the peer, so a duplicated or late answer must not reach them a second time (close of a closed channel kills the client)", func() {
+		fn := c.fn("(*neutrino.ChainService).queryAllPeers")
+		var calls []ssa.Instruction
+		ir.Instrs(fn, func(in ssa.Instruction) {
+			cc := ir.CallOf(in)
+			if cc != nil && !cc.IsInvoke() && cc.Value == ssa.Value(fn.Params[2]) {
+				calls = append(calls, in)
+			}
+		})
+		g := guard{name: "non-blocking <-peerQuits[addr] did not fire"}
+		var quitMap ssa.Value
+		ir.Instrs(fn, func(in ssa.Instruction) {
+			sel, ok := in.(*ssa.Select)
+			if !ok || sel.Blocking || len(sel.States) != 1 || sel.States[0].Dir != types.RecvOnly {
+				return
+			}
+			lk, ok := sel.States[0].Chan.(*ssa.Lookup)
+			if !ok {
+				return
+			}
+			g.found++
+			quitMap = lk.X
+			for _, r := range ir.Refs(sel) {
+				e, ok := r.(*ssa.Extract)
+				if !ok || e.Index != 0 {
+					continue
+				}
+				for _, ib := range ir.IntEqBranches(e) {
+					if ib.K == 0 {
+						g.sites = append(g.sites, guardSite{ib.Branch.Flip(), in})
+					}
+				}
+			}
+		})
+		c.guarded(fn, g, 1, "checkResponse(sp, msg, quit, peerQuit)", calls, 1, gDominate)
+		okArg := len(calls) == 1 && quitMap != nil
+		if okArg {
+			a := ir.CallOf(calls[0]).Args
+			lk, isLk := ir.Strip(a[3]).(*ssa.Lookup)
+			okArg = isLk && lk.X == quitMap
+		}
+		c.verdict(okArg, c.nm(fn)+" | the callback receives the peer's own quit channel", c.P.Pos(fn.Pos()), "peerQuits[sm.sp.Addr()] tested and passed on", "the per-peer quit channel tested before the callback is not the one handed to it")
+	})
+
 	c.rule("C04.O3", "the peer can locate the fork point: every getheaders request that starts a sync or answers a block announcement (all PushGetHeadersMsg sites of the block manager except the in-batch continuation in handleHeadersMsg, whose single hash the peer itself just supplied) carries a locator that includes the stored chain's LatestBlockLocator, so a peer whose best chain no longer contains our tip still finds the common ancestor", func() {
 		push := c.method(pPeer, "Peer", "PushGetHeadersMsg")
 		loc := c.method("headerfs", "BlockHeaderStore", "LatestBlockLocator")
